@@ -138,6 +138,8 @@ def run_file(path, label, n_random, preload=False, extra=()):
                         if blocks(bio) != blocks(io):
                             R.violation('oracle', binp, f'the blob backend touches other disk blocks than the file backend: '
                                         f'{len(blocks(bio))} vs {len(blocks(io))}, difference {sorted(set(blocks(bio)) ^ set(blocks(io)))[:6]}')
+    if a.pid in ('C14', 'C02') and not preload:
+        header_ordinals(path, label)
     if a.pid == 'C07' and preload:
         # with preload the data section is fetched exactly once (at construction) and never again
         ds = fut.data_start
@@ -148,6 +150,54 @@ def run_file(path, label, n_random, preload=False, extra=()):
     fut.close()
     if blob is not None:
         blob.close()
+
+
+def header_ordinals(path, label):
+    """trace-header reads by ordinal: gen_trace_header (both ways of loading) accepts exactly 0 <= i < tracecount; the
+    segyio-style header[] accessor accepts -n <= s < n (Python indexing) and returns the header of trace s mod n; everything
+    else is an IndexError, never a header built from footer padding or from another trace"""
+    import seismic_zfp as _sz
+    with SgzReader(path) as r:
+        n = r.tracecount
+        ref = {}
+        probe = sorted({0, 1, n - 1, n // 2})
+        for t in probe:
+            ref[t] = {int(k): int(v) for k, v in r.gen_trace_header(t).items()}
+        bad_ords = sorted({-1, -2, -n, -n - 1, -2 * n, -2 * n - 1, n, n + 1, 128 * (-(-n // 128)) - 1, 128 * (-(-n // 128)), 10 ** 6} - set(range(n)))
+        for lah in (False, True):
+            for t in bad_ords:
+                R.count('header ordinal outside')
+                R.case(f'{label}|gen_trace_header|{t}|{lah}', nontrivial=True)
+                try:
+                    h = r.gen_trace_header(t, load_all_headers=lah)
+                    R.violation('oracle', {'file': label, 'call': 'gen_trace_header', 'args': [t], 'load_all_headers': lah, 'path': path},
+                                f'ordinal {t} outside 0..{n - 1}: returned a header (INLINE_3D={int(h[189])}, CROSSLINE_3D={int(h[193])}) instead of IndexError')
+                except IndexError:
+                    pass
+                except Exception as e:
+                    R.violation('oracle', {'file': label, 'call': 'gen_trace_header', 'args': [t], 'load_all_headers': lah, 'path': path},
+                                f'ordinal {t} outside 0..{n - 1}: raised {type(e).__name__} instead of IndexError')
+            for t in probe:
+                h = {int(k): int(v) for k, v in r.gen_trace_header(t, load_all_headers=lah).items()}
+                if h != ref[t]:
+                    R.violation('oracle', {'file': label, 'call': 'gen_trace_header', 'args': [t], 'load_all_headers': lah, 'path': path},
+                                'the header differs between the two ways of loading')
+    with _sz.open(path) as f:
+        for s_ in sorted({-1, -n, -n - 1, -n - 2, -2 * n, -2 * n - 1, n, n + 3}):
+            R.count('header[] subscript')
+            want = ref.get(s_ % n) if -n <= s_ < n else None
+            try:
+                h = {int(k): int(v) for k, v in f.header[s_].items()}
+                if not (-n <= s_ < n):
+                    R.violation('oracle', {'file': label, 'call': 'header[]', 'args': [s_], 'path': path},
+                                f'subscript {s_} outside -{n}..{n - 1}: returned a header instead of IndexError')
+                elif want is not None and h != want:
+                    R.violation('oracle', {'file': label, 'call': 'header[]', 'args': [s_], 'path': path}, f'header[{s_}] is not the header of trace {s_ % n}')
+            except IndexError:
+                if -n <= s_ < n:
+                    R.violation('oracle', {'file': label, 'call': 'header[]', 'args': [s_], 'path': path}, f'header[{s_}] (Python indexing: trace {s_ % n}) raised IndexError')
+            except Exception as e:
+                R.violation('oracle', {'file': label, 'call': 'header[]', 'args': [s_], 'path': path}, f'raised {type(e).__name__}: {e}')
 
 
 def header_and_warm_cache_io(d):
